@@ -503,3 +503,82 @@ def exceptions(kind: int, mi: int, store: int):
         finally:
             prog.close()
             sb.close()
+
+
+# ------------------------------------------------------------------------------------------------
+# several exception classes replayed in one process (class identity must not depend on what was replayed before)
+# ------------------------------------------------------------------------------------------------
+
+_EXC_MOD_A = (
+    "class Error(Exception):\n    pass\n\n"
+    "class ValueError(Exception):\n    '''same name as the builtin'''\n\n"
+    "class Outer:\n    class Error(Exception):\n        pass\n\n"
+    "_KIND = [0]\n"
+    "@m.memento_function(version='1')\n"
+    "def fa(x):\n"
+    "    _trace.append(('fa', x))\n"
+    "    k = _KIND[0]\n"
+    "    if k == 0: raise Error('from a')\n"
+    "    if k == 1: raise ValueError('user value error')\n"
+    "    if k == 2: raise Outer.Error('nested')\n"
+    "    raise KeyError('builtin')\n"
+)
+_EXC_MOD_B = (
+    "import builtins\n"
+    "class Error(Exception):\n    pass\n\n"
+    "_KIND = [0]\n"
+    "@m.memento_function(version='1')\n"
+    "def fb(x):\n"
+    "    _trace.append(('fb', x))\n"
+    "    k = _KIND[0]\n"
+    "    if k == 0: raise Error('from b')\n"
+    "    if k == 1: raise builtins.ValueError('builtin value error')\n"
+    "    if k == 2: raise Error('from b, vs nested')\n"
+    "    raise LookupError('other builtin')\n"
+)
+
+
+@obligation(
+    "C02.exception_pairs",
+    covers=("same-name-different-module", "same-name-as-builtin", "nested-vs-toplevel"),
+    split={"store": [0, 1, 3]},
+    bounds="two functions in two modules raising classes that share a name (module-level Error in both; a user class named ValueError vs the "
+           "builtin; nested Outer.Error vs top-level Error; two builtins as control) x both replay orders x {memory, fs, fs+cache}: each "
+           "replay raises exactly the class its own function raised, whatever was replayed before in the same process",
+    variables="choice: pair kind, replay order, store",
+    budget_s={"quick": 120, "thorough": 300},
+    choice_vars=3,
+)
+def exception_pairs(kind: int, order: bool, store: int):
+    kind = pick(kind, 4)
+    b_first = True if order else False
+    with concrete_region():
+        sb = Sandbox(kinds=STORES[store])
+        pa, pb = Program("vpc02xa"), Program("vpc02xb")
+        try:
+            pa.exec(_EXC_MOD_A)
+            pb.exec(_EXC_MOD_B)
+            pa._KIND[0] = kind
+            pb._KIND[0] = kind
+            cover(["same-name-different-module", "same-name-as-builtin", "nested-vs-toplevel", "same-name-different-module"][kind])
+
+            def call(fn):
+                try:
+                    fn(1)
+                except Exception as e:  # noqa
+                    return e
+                return None
+
+            first = {"fa": call(pa.fa), "fb": call(pb.fb)}
+            check("first-calls-raise", first["fa"] is not None and first["fb"] is not None, None)
+            n = len(pa.trace) + len(pb.trace)
+            for name in (("fb", "fa") if b_first else ("fa", "fb")) * 2:
+                e = call(pa.fa if name == "fa" else pb.fb)
+                check("replayed-with-the-class-its-own-function-raised", type(e) is type(first[name]),
+                      (name, repr(type(e)), repr(type(first[name]))))
+                check("replayed-message", str(first[name].args[0]) in str(e), (name, str(e)[:200]))
+            check("replays-run-no-body", len(pa.trace) + len(pb.trace) == n, None)
+        finally:
+            pa.close()
+            pb.close()
+            sb.close()
